@@ -140,7 +140,7 @@ def case(ctx, case):
             ev = pol(tdr, env, phase="test", actions=beams_a.clone(), return_sum_log_likelihood=False)
         ctx.count("c13_replays", R)
         d = (ev["log_likelihood"][:, 1:].double() - beams_ll[:, 1:].double()).abs()
-        if bool((d > 1e-4).any()):
+        if bool((d > 1e-3).any()):  # unscaled CVRPTW features (times ~1e2) give logit noise of ~2e-4 between batch layouts
             r = int(d.max(1).values.argmax())
             ctx.violation(dict(sig, q="beam_logprobs"), f"beam {r}: per-step log-probs returned by beam search differ from those the policy assigns along that very sequence by up to {float(d.max()):.4g} (back-tracking / parent re-indexing)",
                           dict(n=n, B=B, W=W, beam=beams_a[r].tolist(), returned=beams_ll[r].tolist(), replay=ev["log_likelihood"][r].tolist()))
